@@ -222,7 +222,7 @@ var c19PathPool = []string{
 	`$.a[$y]`, `$.a[*] ? (@ > $y && @ < 3)`, `$.*`, `$.b like_regex "x" flag "q"`, `$[*].integer()`, `strict $.** ? (exists(@.b)).b`, `$.a ? (@[*] ? (@ > 1) == 2)`,
 	`$.e.abs()`, `$.e[0][0 to last] * 2`, `$.e[*] ? (@ == 1 || @ == 4)`,
 	`"2015-08-02".timestamp_tz().string()`, `$.s.timestamp().string()`, `"2015-08-02T01:00:00".timestamp_tz() < $.s.timestamp_tz()`,
-	`$.a[*].decimal(20,1)`, `+$.a[1]`, `$.a[*] ? (-@ < -1)`,
+	`$.a[*].decimal(20,1)`, `+$.a[1]`, `$.a[*] ? (-@ < -1)`, `"12:00:00".time_tz().string()`, `"12:00:00".time() < "12:00:00+01".time_tz()`,
 	`(exists($.a)).type()`, `(!($.a[0] == 1)).string()`, `(($.a[0] == 1) is unknown).boolean()`, `($.a[0] + 1).abs() * 2`,
 }
 
@@ -350,6 +350,21 @@ func c19HistOps() []c19HistOp {
 		_ = p2.Scan("strict $.zz ? (@ == 1)")
 		_ = p3.UnmarshalText([]byte("$.yy"))
 		return res
+	}})
+	ops = append(ops, c19HistOp{"parse-rejected-inputs-then-parse-this-text", func(sh *c19Shared) string {
+		// inputs the parser rejects at different stages (lexer, grammar, actions, validation), then a fresh
+		// Parse of the text under test: nothing of a failed Parse may reach the next one
+		for _, bad := range []string{`$ like_regex "("`, `$.a like_regex "a" flag "z"`, `1e999 == 1`, `$.a.decimal(1,2,3) == 1`, `$ == 1 /*`, `@ == 1`, `$ == "unterminated`, `strict`, `$.**{-1} == 1`,
+			`exists($ ? (@ like_regex "["))`, `$[last] ? (last == 1`, `$ ==`, `($ == 1) is`, "$ == \"a\\x\""} {
+			_, _ = path.Parse(bad)
+		}
+		text := sh.paths[0].String()
+		p2, err := path.Parse(text)
+		if err != nil {
+			return "parse " + err.Error()
+		}
+		b, xerr := p2.ExistsOrMatch(context.Background(), sh.doc, sh.opts()...)
+		return fmt.Sprint(p2.String(), " pred=", p2.IsPredicate(), " op=", p2.PgIndexOperator(), " lax=", p2.IsLax(), " x=", b, " ", renderErr(xerr))
 	}})
 	ops = append(ops, c19HistOp{"other-paths-corpus", func(sh *c19Shared) string {
 		// a corpus of other Paths over other documents, in both number representations, exercising every
@@ -670,7 +685,7 @@ func tail(s string, n int) string {
 // ---- run ----
 
 func runC19(r *Run) {
-	r.Rule("(a) stateless schedule exploration under a controlled cooperative scheduler (real goroutines, one runnable at a time; scheduling points = every ctx.Done() poll, i.e. every executed path item, and every lexer token for Parse): every unordered pair of entry points {Query,First,Exists,Match,String} on one shared *Path for each of 28 pool paths (regex, datetime with context zone, keyvalue, variables, nested filters, .**, subscripts, arithmetic, operands yielding an array then a scalar), every pair of pool paths sharing document and variables, triples of a 10-path core, and pairs of concurrent Parse+Query/String at token granularity; depth-first over all schedules with <= B preemptions; oracle: every call returns its solo result and the shared document/variables (incl. hidden slice capacity) are unchanged. (b) explicit-state BFS over call histories on one Path per pool path, with the shared document decoded as float64 and as json.Number: state = reflect fingerprint of the Path (private AST fields); 12 operations (the five entry points, a corpus of 51 other Paths over 6 other documents in both number representations, Parse of the same text by another holder who then re-loads its own object, Value/MarshalBinary, a cancelled silent Query, Query without WithTZ, Query on another document, and calls on other Paths whose operands deliver items and then fail); all histories of <= 2 calls (json.Number document in the quick tier: <= 1 call) are extended regardless of the fingerprint (state outside the Path), longer ones while the fingerprint is new; every operation after every history returns its initial-state result, and that result equals what the operation returns alone in a fresh process (one process per operation). (c) each pool operation three times on equal, freshly allocated inputs. (d) supplementary: the same bodies free-running under the race detector. non-trivial = schedules with at least one preemption")
+	r.Rule("(a) stateless schedule exploration under a controlled cooperative scheduler (real goroutines, one runnable at a time; scheduling points = every ctx.Done() poll, i.e. every executed path item, and every lexer token for Parse): every unordered pair of entry points {Query,First,Exists,Match,String} on one shared *Path for each of 28 pool paths (regex, datetime with context zone, keyvalue, variables, nested filters, .**, subscripts, arithmetic, operands yielding an array then a scalar), every pair of pool paths sharing document and variables, triples of a 10-path core, and pairs of concurrent Parse+Query/String at token granularity; depth-first over all schedules with <= B preemptions; oracle: every call returns its solo result and the shared document/variables (incl. hidden slice capacity) are unchanged. (b) explicit-state BFS over call histories on one Path per pool path, with the shared document decoded as float64 and as json.Number: state = reflect fingerprint of the Path (private AST fields); 13 operations (the five entry points, Parse of 14 rejected inputs followed by a fresh Parse of the text under test, a corpus of 51 other Paths over 6 other documents in both number representations, Parse of the same text by another holder who then re-loads its own object, Value/MarshalBinary, a cancelled silent Query, Query without WithTZ, Query on another document, and calls on other Paths whose operands deliver items and then fail); all histories of <= 2 calls (json.Number document in the quick tier: <= 1 call) are extended regardless of the fingerprint (state outside the Path), longer ones while the fingerprint is new; every operation after every history returns its initial-state result, and that result equals what the operation returns alone in a fresh process (one process per operation). (c) each pool operation three times on equal, freshly allocated inputs. (d) supplementary: the same bodies free-running under the race detector. non-trivial = schedules with at least one preemption")
 	B := 2
 	if r.Thorough() {
 		B = 3
